@@ -425,21 +425,43 @@ def run(cx, rep):
                 byte_w = mn
             elif k == 4:
                 u32_w = mn
+    # A text writer may also take the TYPE BYTE of the payload as a parameter and write it itself, in front of the
+    # length (b104: updateTag / updateString / updateNumber share `updateMarkedText(marker, text)`, into which the
+    # length-prefixed writer was inlined: byte_w(marker); encode; u32_w(length); bytes_w(bytes)).  `marked` maps such a
+    # method - and a private helper that is byte_w(<own parameter>) followed by the text writer - to the position of
+    # that parameter: at its call sites the argument at this position is the type byte.
+    marked = {}
+
+    def marker_pos(m, tcm):
+        a0 = unparen(tcm[0][1][0]) if tcm and tcm[0][0] == byte_w and tcm[0][1] else {}
+        ps = ts_common.fn_params(m["function"])
+        return ps.index(a0["value"]) if a0.get("type") == "Identifier" and a0["value"] in ps else None
     for mn, m in priv.items():
-        tc = [c[0] for c in this_calls(m["function"])]
-        if u32_w and bytes_w and tc[:2] == [u32_w, bytes_w] and any(nn["type"] == "CallExpression" and s(nn["callee"]).endswith(".encode") for nn in walk(m["function"])):
+        tcm = this_calls(m["function"])
+        tc = [c[0] for c in tcm]
+        if not (u32_w and bytes_w and any(nn["type"] == "CallExpression" and s(nn["callee"]).endswith(".encode") for nn in walk(m["function"]))):
+            continue
+        if tc[:2] == [u32_w, bytes_w]:
             utf8_w = mn
+        elif byte_w and tc[:3] == [byte_w, u32_w, bytes_w] and marker_pos(m, tcm) is not None:
+            utf8_w = mn
+            marked[mn] = marker_pos(m, tcm)
+    for mn, m in priv.items():
+        tcm = this_calls(m["function"])
+        if utf8_w and utf8_w not in marked and m.get("accessibility") == "private" and [c[0] for c in tcm] == [byte_w, utf8_w] and marker_pos(m, tcm) is not None:
+            marked[mn] = marker_pos(m, tcm)
     rep.ob("C13.3", "writer/roles", all([bytes_w, byte_w, u32_w, utf8_w]),
            "could not identify the writer's primitives (block feeder %s, single byte %s, big-endian word %s, length-prefixed text %s)" % (bytes_w, byte_w, u32_w, utf8_w),
            mod.loc(w.node), sample={"block_feeder": bytes_w, "byte": byte_w, "uint32": u32_w, "length_prefixed_utf8": utf8_w})
     tagbytes = {}
-    publics = {mn: m for mn, m in priv.items() if m.get("accessibility") != "private" and mn not in (bytes_w, byte_w, u32_w, utf8_w)
-               and any(c[0] == byte_w for c in this_calls(m["function"]))}
+    publics = {mn: m for mn, m in priv.items() if m.get("accessibility") != "private" and mn not in (bytes_w, byte_w, u32_w, utf8_w) and mn not in marked
+               and any(c[0] == byte_w or c[0] in marked for c in this_calls(m["function"]))}
     for mname, m in publics.items():
         bs = []
         for cname_, args_, node_ in this_calls(m["function"]):
-            if cname_ == byte_w and args_:
-                for x in walk(args_[0]):
+            tb_ = 0 if cname_ == byte_w else marked.get(cname_)      # where the type byte is among the arguments
+            if tb_ is not None and len(args_) > tb_:
+                for x in walk(args_[tb_]):
                     if x["type"] == "NumericLiteral":
                         bs.append(int(x["value"]))
                     elif x["type"] == "Identifier" and x["value"] in _CONSTS:
@@ -456,11 +478,13 @@ def run(cx, rep):
             for c in this_calls(m["function"]) if c[0] != byte_w for a_ in c[1] for x in walk(a_))
         if not payload:
             continue
-        rep.ob("C13.3", "writer/%s-length-prefixed" % mname, all(c == utf8_w for c in payload),
+        rep.ob("C13.3", "writer/%s-length-prefixed" % mname, all(c == utf8_w or c in marked for c in payload),
                "%s writes a variable-length payload through %s: it must go through the length-prefixed text writer, otherwise two different sequences of writes give the same byte stream" % (mname, payload), mod.loc(m))
     lp = w.methods.get(utf8_w) if utf8_w else None
     if lp:
         calls = [c[0] for c in this_calls(lp["function"])]
+        if utf8_w in marked and calls[:1] == [byte_w]:
+            calls = calls[1:]          # the type byte it writes first on behalf of its callers (b104)
         rep.ob("C13.3", "writer/length-before-bytes", calls[:2] == [u32_w, bytes_w], "the byte length must be written before the bytes (calls %s)" % calls, mod.loc(lp))
     # ---------------------------------------------------------------- C13.9
     rep.rule("C13.9", "the orders the digests are computed in are total and do not depend on the host")
